@@ -38,6 +38,40 @@ pub uninterp spec fn doc_of(node: usize) -> usize;              // the document 
 pub uninterp spec fn convertible(node: usize) -> bool;          // TryFrom<XmlNode> for Rc<XmlItem> answers Ok (units/c13_convert.py)
 pub uninterp spec fn refused_below(w: World, parent: usize, child: usize) -> bool;   // the hierarchy / type checks of insert_by_id refuse
 
+pub open spec fn without_id(s: Seq<usize>, x: usize) -> Seq<usize> { s.filter(|v: usize| v != x) }
+pub open spec fn ins_before(children: Seq<usize>, v: usize, id: usize) -> Seq<usize> { let rest = without_id(children, v); rest.insert(rest.index_of(id), v) }
+// what `filter(v != dropped)` keeps: every other element
+pub proof fn lemma_without_keeps(s: Seq<usize>, dropped: usize, keep: usize)
+    requires s.contains(keep), keep != dropped,
+    ensures without_id(s, dropped).contains(keep),
+    decreases s.len(),
+{
+    reveal(Seq::filter);
+    let i = choose|i: int| 0 <= i < s.len() && s[i] == keep;
+    if i == s.len() - 1 {
+        let f = without_id(s.drop_last(), dropped);
+        assert(without_id(s, dropped) == f.push(keep));
+        assert(f.push(keep)[f.len() as int] == keep);
+    } else {
+        assert(s.drop_last()[i] == keep);
+        lemma_without_keeps(s.drop_last(), dropped, keep);
+        let f = without_id(s.drop_last(), dropped);
+        let j = choose|j: int| 0 <= j < f.len() && f[j] == keep;
+        if s.last() != dropped { assert(without_id(s, dropped) == f.push(s.last())); assert(f.push(s.last())[j] == keep); }
+    }
+}
+// the reference child is still listed once the new child stands before it
+pub proof fn lemma_ins_before_keeps(s: Seq<usize>, v: usize, id: usize)
+    requires s.contains(id), id != v,
+    ensures ins_before(s, v, id).contains(id),
+{
+    lemma_without_keeps(s, v, id);
+    let rest = without_id(s, v);
+    let k = rest.index_of(id);
+    assert(0 <= k < rest.len() && rest[k] == id);
+    assert(rest.insert(k, v)[k + 1] == id);
+}
+
 pub struct World {
     pub kids: Ghost<Map<usize, Seq<usize>>>,
     pub parent: Ghost<Map<usize, Option<usize>>>,
@@ -47,8 +81,18 @@ impl World {
     pub open spec fn unchanged(self, o: World) -> bool { self.kids@ == o.kids@ && self.parent@ == o.parent@ }
     // the effect of a performed insertion, as units/c13_tree.py proves it for HasChildren::insert_before / append: a relation
     // between the two worlds that this layer only hands on
-    pub uninterp spec fn inserted(self, o: World, parent: usize, child: usize, before: Option<usize>) -> bool;
-    pub uninterp spec fn deleted(self, o: World, parent: usize, child: usize) -> bool;
+    // the child list of `parent` is stated (the clauses `the_child_lands_directly_before_the_reference`, `the_child_becomes_the_last_child`,
+    // `removed_child_loses_its_key` there); everything else a performed call does (order keys, the parent links, the list the child
+    // left) stays an uninterpreted relation
+    pub open spec fn inserted(self, o: World, parent: usize, child: usize, before: Option<usize>) -> bool {
+        self.list(parent) == (match before { Some(x) => ins_before(o.list(parent), child, x), None => without_id(o.list(parent), child).push(child) })
+        && self.inserted_rest(o, parent, child, before)
+    }
+    pub open spec fn deleted(self, o: World, parent: usize, child: usize) -> bool {
+        self.list(parent) == without_id(o.list(parent), child) && self.deleted_rest(o, parent, child)
+    }
+    pub uninterp spec fn inserted_rest(self, o: World, parent: usize, child: usize, before: Option<usize>) -> bool;
+    pub uninterp spec fn deleted_rest(self, o: World, parent: usize, child: usize) -> bool;
 
     #[verifier::external_body]
     pub fn documents_differ(&self, a: usize, b: usize) -> (r: bool) ensures r == (doc_of(a) != doc_of(b)) { unimplemented!() }
@@ -91,6 +135,10 @@ impl XmlElement {
     //@@ insert_before
 
     //@@ remove_child
+
+    //@@ replace_child
+
+    //@@ append_child
 }
 impl XmlDocument {
     //@@ doc_insert_before
@@ -142,7 +190,11 @@ def build():
                       f'r is Ok ==> r->Ok_0.ident == new_child.ident && final(world).inserted(*old(world), {ME}, new_child.ident, match ref_child {{ Some(x) => Some(x.ident), None => None::<usize> }})'),
                      ('C13:the_call_is_performed_whenever_nothing_stands_against_it',
                       f'doc_of({ME}) == doc_of(new_child.ident) && convertible(new_child.ident) && !refused_below(*old(world), {ME}, new_child.ident)'
-                      f' && (ref_child is Some ==> doc_of({ME}) == doc_of(ref_child->Some_0.ident) && old(world).list({ME}).contains(ref_child->Some_0.ident) && ref_child->Some_0.ident != new_child.ident) ==> r is Ok')])
+                      f' && (ref_child is Some ==> doc_of({ME}) == doc_of(ref_child->Some_0.ident) && old(world).list({ME}).contains(ref_child->Some_0.ident) && ref_child->Some_0.ident != new_child.ident) ==> r is Ok'),
+                     ('C13:and_only_then',
+                      f'r is Ok ==> doc_of({ME}) == doc_of(new_child.ident) && convertible(new_child.ident) && !refused_below(*old(world), {ME}, new_child.ident)'
+                      f' && (ref_child is Some ==> doc_of({ME}) == doc_of(ref_child->Some_0.ident) && old(world).list({ME}).contains(ref_child->Some_0.ident) && ref_child->Some_0.ident != new_child.ident)'),
+                     ('C13:not_found_is_answered_only_for_a_reference', f'r is Err && r->Err_0 == {DOM("NotFoundErr")} ==> ref_child is Some')])
         fns[prefix + 'remove_child'] = Fn(
             FD, owner, 'remove_child', props=P, safety_props=P, label=label + '::remove_child', sig_rules=[Rule('R43', r'\(&self,', '(&self, world: &mut World,', 'explicit world parameter'), SIG[1]],
             rules=[R_ERR,
@@ -153,6 +205,35 @@ def build():
             ensures=[('C13:a_node_of_another_document_is_refused', f'doc_of({ME}) != doc_of(old_child.ident) ==> r is Err && r->Err_0 == {DOM("WrongDocumentErr")} && final(world).unchanged(*old(world))'),
                      ('C13:a_node_that_is_not_a_child_is_not_found', f'doc_of({ME}) == doc_of(old_child.ident) && !old(world).list({ME}).contains(old_child.ident) ==> r is Err && r->Err_0 == {DOM("NotFoundErr")} && final(world).unchanged(*old(world))'),
                      ('C13:a_child_is_removed_and_answered', f'doc_of({ME}) == doc_of(old_child.ident) && old(world).list({ME}).contains(old_child.ident) ==> r is Ok && r->Ok_0.ident == old_child.ident && final(world).deleted(*old(world), {ME}, old_child.ident)')])
+    # the trait defaults `NodeMut::replace_child` / `append_child`, as XmlElement has them (XmlDocument overrides replace_child): the
+    # calls on `self` resolve to the two functions above and are checked against THEIR contracts
+    ME = 'self.element.ident'
+    TD = 'pub trait NodeMut'
+    SIG1 = [Rule('R43', r'\(&self,', '(&self, world: &mut World,', 'explicit world parameter'), SIG[1]]
+    fns['replace_child'] = Fn(
+        FD, TD, 'replace_child', props=P, safety_props=P, label='dom::NodeMut::replace_child (trait default, as XmlElement has it)', sig_rules=SIG1,
+        rules=[Rule('R43', r'self\.insert_before\(new_child, ', 'self.insert_before(world, new_child, ', 'explicit world parameter handed on'),
+               Rule('R43', r'self\.remove_child\(', 'self.remove_child(world, ', 'same')],
+        inject=[(r'self\.remove_child\(world, ', f'proof {{ lemma_ins_before_keeps(old(world).list({ME}), new_child.ident, old_child.ident); }}', 'before')],
+        ensures=[('C13:every_error_is_one_of_the_specified_classes_and_changes_nothing',
+                  f'r is Err ==> final(world).unchanged(*old(world)) && (r->Err_0 == {DOM("WrongDocumentErr")} || r->Err_0 == {DOM("NotFoundErr")} || r->Err_0 == {DOM("HierarchyRequestErr")} || r->Err_0 == {DOM("NotSupportErr")})'),
+                 ('C13:a_node_of_another_document_is_refused', f'(doc_of({ME}) != doc_of(new_child.ident) || doc_of({ME}) != doc_of(old_child.ident)) ==> r is Err && r->Err_0 == {DOM("WrongDocumentErr")}'),
+                 ('C13:an_old_child_that_is_not_a_child_is_not_found',
+                  f'doc_of({ME}) == doc_of(new_child.ident) && doc_of({ME}) == doc_of(old_child.ident) && convertible(new_child.ident) && !old(world).list({ME}).contains(old_child.ident) ==> r is Err && r->Err_0 == {DOM("NotFoundErr")}'),
+                 ('C13:a_performed_call_answers_the_old_child_and_the_new_one_stands_in_its_place',
+                  f'r is Ok ==> r->Ok_0.ident == old_child.ident && final(world).list({ME}) == without_id(ins_before(old(world).list({ME}), new_child.ident, old_child.ident), old_child.ident)'
+                  f' && (exists|mid: World| mid.inserted(*old(world), {ME}, new_child.ident, Some(old_child.ident)) && final(world).deleted(mid, {ME}, old_child.ident))'),
+                 ('C13:the_call_is_performed_whenever_nothing_stands_against_it',
+                  f'doc_of({ME}) == doc_of(new_child.ident) && doc_of({ME}) == doc_of(old_child.ident) && convertible(new_child.ident) && !refused_below(*old(world), {ME}, new_child.ident)'
+                  f' && old(world).list({ME}).contains(old_child.ident) && old_child.ident != new_child.ident ==> r is Ok')])
+    fns['append_child'] = Fn(
+        FD, TD, 'append_child', props=P, safety_props=P, label='dom::NodeMut::append_child (trait default, as XmlElement has it)', sig_rules=SIG1,
+        rules=[Rule('R43', r'self\.insert_before\(new_child, ', 'self.insert_before(world, new_child, ', 'explicit world parameter handed on')],
+        ensures=[('C13:every_error_is_one_of_the_specified_classes_and_changes_nothing',
+                  f'r is Err ==> final(world).unchanged(*old(world)) && (r->Err_0 == {DOM("WrongDocumentErr")} || r->Err_0 == {DOM("HierarchyRequestErr")} || r->Err_0 == {DOM("NotSupportErr")})'),
+                 ('C13:a_performed_call_appends_and_answers_the_node', f'r is Ok ==> r->Ok_0.ident == new_child.ident && final(world).inserted(*old(world), {ME}, new_child.ident, None::<usize>)'),
+                 ('C13:the_call_is_performed_whenever_nothing_stands_against_it',
+                  f'doc_of({ME}) == doc_of(new_child.ident) && convertible(new_child.ident) && !refused_below(*old(world), {ME}, new_child.ident) ==> r is Ok')])
     return ENV, fns
 
 
